@@ -534,6 +534,8 @@ def check_init(dic, cfg):
     init = cfg.get("init")
     if cfg.get("_data") == "same":
         return fails   # contemporaneous data set: the expectations below are those of the dated one
+    if cfg.get("_cross") and init and not S.INIT_NEEDS[init](cfg):
+        return fails   # a switch given with a model it is not documented for: no value is promised (the model must stay sound)
     TIPS, INTERNAL = [4.0, 3.0, 1.5, 1.0, 0.0, 0.0], [1.0, 2.0, 3.5, 5.0, 6.0]
 
     def root_height():
@@ -1005,6 +1007,42 @@ def check_extra(C, cfg, emitted, dic, data):
         want = [int(x) for x in v.split(",")] if "," in v else int(v)
         expect((el is None) if want == 0 else (el is not None and el.get("samples") == want), "--elbo_samples",
                f"convergence samples = {el and el.get('samples')}")
+    # ---- numeric options: the emitted value is float(spelling), whatever the spelling
+    def tens(i):
+        o = dic.get(i)
+        return None if o is None or not hasattr(o, "tensor") else o.tensor.detach().reshape(-1).tolist()
+
+    def root_h():
+        t = dic.get("tree")
+        return None if t is None or not hasattr(t, "node_heights") else [float(t.node_heights.detach().reshape(-1)[-1])]
+
+    numeric = {"--rate_init": lambda: tens("branchmodel.rate"), "--rate": lambda: tens("branchmodel.rate"),
+               "--coalescent_init": lambda: tens("coalescent.theta"), "--brlens_init": lambda: tens("tree.blens"),
+               "--root_height_init": root_h}
+    for opt, get in numeric.items():
+        if opt in opts and not cfg.get("_overridden"):
+            try:
+                want = float(opts[opt])
+            except (TypeError, ValueError):
+                continue
+            got = get()
+            if got is not None:
+                expect(len(got) > 0 and all(close(x, want, 1e-6) for x in got), opt, f"the model starts at {got[:3]}, float({opts[opt]!r}) = {want}")
+    if "--clockpr" in opts and "(" in str(opts["--clockpr"]):
+        name, inner = opts["--clockpr"].split("(", 1)
+        try:
+            want = [float(x) for x in inner.rstrip(")").split(",")]
+        except ValueError:
+            want = None
+        el = first(lambda d: d.get("id") == "branchmodel.rate.prior")
+        if want and el is not None:
+            got = el.get("parameters", {}).get("rate") if isinstance(el.get("parameters"), dict) else None
+            if isinstance(got, dict):
+                got = got.get("tensor")
+            gl = got if isinstance(got, list) else [got]
+            expect(str(el.get("distribution", "")).lower().endswith(name.lower()) and got is not None
+                   and all(isinstance(x, (int, float)) and close(float(x), want[0], 1e-9) for x in gl),
+                   "--clockpr", f"the emitted prior on the clock rate is {el.get('distribution')} with rate {got}, requested rate {want[0]}")
     if "--frequencies" in opts and "substmodel.frequencies" in dic:
         got = dic["substmodel.frequencies"].tensor.detach().reshape(-1).tolist()
         v = opts["--frequencies"]
@@ -1337,6 +1375,10 @@ def configs(ck):
         add(c, "precedence")
     for c in S.date_spellings():
         add(c, "date-spellings")
+    for c in S.cross_model():
+        add(c, "cross-model")
+    for c in S.numeric_spellings():
+        add(c, "numeric-spellings")
     for c in S.pairwise(ck.rng):
         add(c, "pairwise")
     if ck.thorough():
